@@ -108,6 +108,15 @@ func (x BinaryList) Value() interface{} {
 	return [][]byte(x)
 }
 
+func (x BinaryList) Len() int {
+	return len(x)
+}
+
+// Item is the i-th element as a Binary, which holds the base64 text
+func (x BinaryList) Item(i int) Value {
+	return Binary(b64.StdEncoding.EncodeToString(x[i]))
+}
+
 func (x BinaryList) Compare(y Comparable) int {
 	yl := [][]byte(y.(BinaryList))
 	if len(x) < len(yl) {
